@@ -19,7 +19,7 @@ done
 for D in seeded/*/; do
     [ -f "$D/patch.diff" ] || continue
     case "$D" in *"$PATTERN"*) ;; *) continue ;; esac
-    ID="$(python3 -c "import json,sys; print(json.load(open('$D/meta.json'))['property'])" 2>/dev/null)"
+    ID="$(python3 -c "import json,sys; m=json.load(open('$D/meta.json')); print(m.get('check_property', m['property']))" 2>/dev/null)"
     [ -n "$ID" ] || continue
     LINE="$(tools/try_patch.sh "/verif/$D/patch.diff" "$ID" 2>&1 | tail -1)"
     case "$LINE" in
